@@ -80,6 +80,29 @@ OPNAME = {0x01: "add", 0x02: "mul", 0x03: "sub", 0x04: "div", 0x05: "sdiv", 0x06
           0xf2: "callcode", 0xf4: "delegatecall", 0xf5: "create2", 0xfa: "staticcall"}
 POPONLY = {0x37: 3, 0x39: 3, 0x3c: 4, 0x3e: 3, 0x50: 1, 0x52: 2, 0x53: 2, 0x55: 2, 0x5e: 3, 0xa0: 2, 0xa1: 3, 0xa2: 4, 0xa3: 5, 0xa4: 6}
 ETK_UNDEFINED = {0x49, 0x4a, 0x5c, 0x5d}
+# the four Cancun opcodes etk's own `cancun` table does not define (finding D27): (name, pops, pushes a value read from
+# the state).  With REAL_CANCUN False (default) the reference follows etk's opcode set (they are invalid = halting
+# instructions); with REAL_CANCUN True it follows the Cancun EVM.
+CANCUN_EXTRA = {0x49: ("blobhash", 1, True), 0x4a: ("blobbasefee", 0, True), 0x5c: ("tload", 1, True), 0x5d: ("tstore", 2, False)}
+REAL_CANCUN = False
+
+
+class real_cancun:
+    """context manager: evaluate under the real Cancun EVM"""
+    def __enter__(self):
+        global REAL_CANCUN
+        self.old, REAL_CANCUN = REAL_CANCUN, True
+    def __exit__(self, *a):
+        global REAL_CANCUN
+        REAL_CANCUN = self.old
+
+
+def uses_cancun_extra(code):
+    return any(op in CANCUN_EXTRA for _, op, _ in decode(code))
+
+
+D27 = ("D27 (etk's Cancun table lacks BLOBHASH 0x49, BLOBBASEFEE 0x4a, TLOAD 0x5c, TSTORE 0x5d and treats them as halting "
+       "invalid instructions; under the real Cancun EVM): ")
 
 
 def decode(code):
@@ -118,6 +141,11 @@ def step(op, imm, pc, stack, fresh=None):
     if op in POPONLY:
         k = POPONLY[op]; need(k)
         return ("next", stack[k:])
+    if REAL_CANCUN and op in CANCUN_EXTRA:
+        name, k, pushes = CANCUN_EXTRA[op]; need(k)
+        if not pushes:
+            return ("next", stack[k:])
+        return ("next", [fresh() if fresh is not None else H(name, stack[:k])] + stack[k:])
     if op == 0x58: return ("next", [pc % 65536] + stack)
     if op == 0x5b: return ("next", stack)
     if op == 0x5f: return ("next", [0] + stack)
